@@ -260,6 +260,11 @@ _BTree_get(BTree *self, PyObject *keyarg, int has_key, int replace_type_err)
     int copied = 1;
 
     COPY_KEY_FROM_ARG(key, keyarg, copied);
+#ifdef KEY_CHECK_ON_SET
+    /* A key that could never have been stored cannot be present. */
+    if (copied && !KEY_CHECK_ON_SET(keyarg))
+        copied = 0;
+#endif
     UNLESS (copied)
     {
         if (replace_type_err && PyErr_ExceptionMatches(PyExc_TypeError))
